@@ -141,6 +141,7 @@ func (c *c18) DumpCase(seed uint64, idx int) []Case {
 		}
 	}
 	cs.Opts.Banned = banned
+	cs.Opts.SplitBans = len(banned) > 1 && r.chance(500)
 	cs.Extra = map[string]any{"disk_seed": r.n(1 << 30)}
 	if r.chance(200) && len(banned) == 1 {
 		// option values are reused: the ban option of this case was first used together with a
@@ -401,6 +402,12 @@ func (c *c18) check(cs *Case, record bool) *Case {
 					break
 				}
 				if !o.inRoot && strings.HasPrefix(got.Msg, got.RawMsg+"\n"+o.file+":"+fmt.Sprint(ln)+"\n") {
+					// ... and the rest of the trace must be a chain of INCLUDE directives that leads from
+					// the root to that file: each line names a file and the line of an INCLUDE in it whose
+					// target is the file of the line before
+					if why := traceChainError(p, got.Msg[len(got.RawMsg)+1:]); why != "" {
+						return violation(cs, "banned-wrong-trace", strings.Join(kindList, "+"), "'not allowed' diagnostic has an inconsistent include trace: "+why+"\n"+got.Msg)
+					}
 					located = true
 					break
 				}
@@ -486,4 +493,49 @@ func sortStrings(ss []string) {
 			ss[j], ss[j-1] = ss[j-1], ss[j]
 		}
 	}
+}
+
+// traceChainError checks an include trace ("file:line" per line, innermost first, root last)
+// against the project: line i+1 must name an INCLUDE directive whose target is the file of line i.
+func traceChainError(p *Project, trace string) string {
+	type ent struct {
+		file string
+		line int
+	}
+	var ee []ent
+	for _, l := range strings.Split(strings.TrimSpace(trace), "\n") {
+		i := strings.LastIndex(l, ":")
+		if i < 0 {
+			return "unparsable trace line " + l
+		}
+		ee = append(ee, ent{l[:i], atoi(l[i+1:])})
+	}
+	if len(ee) < 2 {
+		return "the trace of a diagnostic in an included file has fewer than two lines"
+	}
+	abs := func(f string) string {
+		if !filepath.IsAbs(f) {
+			f = filepath.Join(p.cwd(), f)
+		}
+		return filepath.Clean(f)
+	}
+	if abs(ee[len(ee)-1].file) != p.absRoot() {
+		return "the trace does not end at the root file"
+	}
+	for i := 1; i < len(ee); i++ {
+		content := p.content(abs(ee[i].file))
+		lines := strings.Split(string(content), "\n")
+		if ee[i].line < 1 || ee[i].line > len(lines) {
+			return fmt.Sprintf("%s has no line %d", ee[i].file, ee[i].line)
+		}
+		f := strings.Fields(lines[ee[i].line-1])
+		if len(f) < 2 || f[0] != "INCLUDE" {
+			return fmt.Sprintf("%s:%d is not an INCLUDE directive", ee[i].file, ee[i].line)
+		}
+		target := filepath.Join(filepath.Dir(abs(ee[i].file)), f[1])
+		if target != abs(ee[i-1].file) {
+			return fmt.Sprintf("%s:%d includes %s, not %s", ee[i].file, ee[i].line, f[1], ee[i-1].file)
+		}
+	}
+	return ""
 }
